@@ -9,6 +9,7 @@ import (
 	"bufio"
 	"bytes"
 	stdctx "context"
+	"encoding/json"
 	stderrors "errors"
 	"fmt"
 	"io"
@@ -272,9 +273,9 @@ func buildEnvWith(cfg Config, doc *loads.Document, regs []opReg) *env {
 			}
 		}
 		rw.WriteHeader(code)
-		if err != nil {
-			_, _ = io.WriteString(rw, "E|"+err.Error())
-		}
+		// the body names the error's type and status, not its message: messages of the
+		// library list media types and methods in map iteration order
+		_, _ = io.WriteString(rw, errTag(err))
 	}
 	handler := runtime.OperationHandlerFunc(func(interface{}) (interface{}, error) { return e.handle() })
 	for _, rg := range regs {
@@ -435,6 +436,9 @@ func rawRequest(c *Case, path string) string {
 }
 
 func (e *env) requestPath(c *Case) string {
+	if c.Path != "" {
+		return c.Path // sequence sweep: the operation names its own path
+	}
 	switch c.Target {
 	case "op", "other-method":
 		return e.pathFor(c.Responses)
@@ -521,7 +525,7 @@ func (e *env) serveTyped(w http.ResponseWriter, r *http.Request, c *Case) {
 	if rCtx != nil {
 		*r = *rCtx
 	}
-	produces := typedProduces(e.cfg.Produces, e.mode.defaultType)
+	produces := typedProduces(c.Produces, e.mode.defaultType)
 	if route.HasAuth() {
 		_, aCtx, err := e.ctx.Authorize(r, route)
 		if err != nil {
@@ -551,4 +555,125 @@ func sortedKeys(m map[string]int64) []string {
 	}
 	sort.Strings(ks)
 	return ks
+}
+
+// errTag identifies an error without its message text.
+func errTag(err error) string {
+	if err == nil {
+		return "E|nil"
+	}
+	return fmt.Sprintf("E|%T|%d", err, firstCode(err))
+}
+
+// ---- descriptions whose operations collide on their operationId (sequence sweep) ----
+
+// seqOp is one operation of the sequence sweep's description. The operations are chosen
+// to collide pairwise on something a cache could be keyed by (operationId when absent or
+// duplicated, path, method, produced media type) while differing in what the property
+// makes depend on the operation: the declared success status and the produces list.
+// Every list has at most one entry besides the API default, so that the offer order -
+// and with it every response - is the same on every instance of the API.
+type seqOp struct {
+	Method   string
+	Path     string // template
+	ReqPath  string // a path that instantiates it
+	Codes    []string
+	Produces []string
+}
+
+var seqOps = []seqOp{
+	{"GET", "/things", "/things", []string{"200"}, []string{mtText}},
+	{"POST", "/things", "/things", []string{"201"}, []string{mtXML}},
+	{"DELETE", "/things/{id}", "/things/7", []string{"204"}, []string{mtJSON}},
+	{"GET", "/other", "/other", []string{"202"}, []string{mtXML}},
+	{"HEAD", "/other", "/other", []string{"200", "203"}, []string{"text/plain; charset=utf-8"}},
+}
+
+// idVariants: how the operations are identified in the description.
+//
+//	distinct  every operation has its own operationId (what engine/apib generates)
+//	none      no operation has an operationId (it is optional in Swagger 2.0)
+//	dup       all operations carry the same operationId
+//	mixed     the first two have none, the others share one
+var idVariants = []string{"distinct", "none", "dup", "mixed"}
+
+func loadSeqDoc(ids string) (*loads.Document, []opReg) {
+	sp := apib.Spec{BasePath: "/api"}
+	var regs []opReg
+	for _, o := range seqOps {
+		resp := map[string]any{}
+		for _, c := range o.Codes {
+			resp[c] = map[string]any{"description": "r" + c}
+		}
+		op := apib.Op{Method: o.Method, Path: o.Path, Produces: o.Produces, Responses: resp}
+		if strings.Contains(o.Path, "{id}") {
+			op.Params = []map[string]any{{"name": "id", "in": "path", "type": "string", "required": true}}
+		}
+		sp.Ops = append(sp.Ops, op)
+		regs = append(regs, opReg{o.Method, o.Path})
+	}
+	// engine/apib always writes an operationId: edit the rendered JSON
+	var doc map[string]any
+	if err := json.Unmarshal(sp.JSON(), &doc); err != nil {
+		panic(err)
+	}
+	paths := doc["paths"].(map[string]any)
+	for i, o := range seqOps {
+		op := paths[o.Path].(map[string]any)[strings.ToLower(o.Method)].(map[string]any)
+		switch ids {
+		case "distinct":
+		case "none":
+			delete(op, "operationId")
+		case "dup":
+			op["operationId"] = "same"
+		case "mixed":
+			if i < 2 {
+				delete(op, "operationId")
+			} else {
+				op["operationId"] = "same"
+			}
+		default:
+			panic("unknown id variant " + ids)
+		}
+	}
+	raw, err := json.Marshal(doc)
+	if err != nil {
+		panic(err)
+	}
+	d, err := loads.Analyzed(json.RawMessage(raw), "")
+	if err != nil {
+		panic(fmt.Sprintf("sequence description does not load: %v", err))
+	}
+	return d, regs
+}
+
+// signature is the observation in a form that must be identical on every instance of
+// the same API: everything summary() shows, with errors named by type and status.
+func (o *obs) signature() string {
+	var b strings.Builder
+	if o.panicked != "" {
+		fmt.Fprintf(&b, "panic(%s) ", o.panicked)
+	}
+	if o.w.committed {
+		fmt.Fprintf(&b, "status=%d content-type=%q www-authenticate=%q body=%q", o.w.status, o.w.snap.Get("Content-Type"), o.w.snap.Values("WWW-Authenticate"), o.w.body.String())
+	} else {
+		fmt.Fprintf(&b, "nothing written (content-type header %q)", o.w.h.Get("Content-Type"))
+	}
+	fmt.Fprintf(&b, " handler-runs=%d", o.handlerRuns)
+	for _, pc := range o.prodCalls {
+		fmt.Fprintf(&b, " produce[%s](%#v)", pc.p.tag, pc.data)
+	}
+	for _, rc := range o.respCalls {
+		tag := "nil"
+		if p, ok := rc.p.(*recProducer); ok && p != nil {
+			tag = p.tag
+		} else if rc.p != nil {
+			tag = fmt.Sprintf("%T", rc.p)
+		}
+		fmt.Fprintf(&b, " responder-handed[%s; content-type=%q]", tag, rc.ct)
+	}
+	for _, ec := range o.errCalls {
+		fmt.Fprintf(&b, " error-responder(%s; content-type=%q)", errTag(ec.err), ec.ct)
+	}
+	return b.String()
 }
